@@ -10,8 +10,14 @@ state is printed; object identity is printed as a stable number given to each ob
 first time it appears in an answer (the harness does the same from addresses).
 
 The implementation's answers are parsed back into a machine `State` (objects numbered by the
-harness), and the property's clauses (`ParamList.checkStep`) are evaluated on the pair
-(previous implementation state, implementation state after the operation).
+harness), and the property's clauses (`ParamList.xcheckStep`, which contains `checkStep`) are
+evaluated on the pair (previous implementation state, implementation state after the operation).
+
+Round 2: the machine is the extended one (`ParamListExt.xstep`): `setallp` / `setps` are the repaired
+routines, `at` / `param` answer an object (`obj <entry>`; `ub` for an out-of-range `operator[]`, which
+the harness does not execute), `clone` is the copy constructor, `ap.*` are the owner's read routes
+through the namespace and its protected forwarders (= the list-level operation on the owner's list).
+A value token `n'` means n/4 + 2⁻³⁰.
 -/
 namespace Bpp.Drive.C02
 open Bpp Bpp.Proto Bpp.ParamList
@@ -33,9 +39,16 @@ structure St where
 def showName (s : String) : String := if s.isEmpty then "-" else s
 def readName (s : String) : String := if s == "-" then "" else s
 
+/-- the nudge of a value token `n'`: `n/4 + 2⁻³⁰` (an exactly representable double next to a
+grid point, so that "differs" and "equal" are told apart by less than any sensible tolerance) -/
+def nudge : Rat := 1 / 1073741824
+
 def showQ (v : Rat) : String :=
   let x := v * 4
-  if x.den == 1 then toString x.num else "x" ++ toString v.num ++ "/" ++ toString v.den
+  if x.den == 1 then toString x.num
+  else
+    let y := (v - nudge) * 4
+    if y.den == 1 then toString y.num ++ "'" else "x" ++ toString v.num ++ "/" ++ toString v.den
 
 def showBnd : Bnd → String
   | .negInf => "-inf"
@@ -90,7 +103,9 @@ def showState (s : State) (ans : XAns) (ren : List (ObjId × Nat)) : List (ObjId
 
 /-! ### parsing -/
 
-def quarter? (s : String) : Option Rat := (int? s).map (fun n => (n : Rat) / 4)
+def quarter? (s : String) : Option Rat :=
+  if s.endsWith "'" then (int? (s.dropEnd 1).toString).map (fun n => (n : Rat) / 4 + nudge)
+  else (int? s).map (fun n => (n : Rat) / 4)
 
 def bnd? (s : String) : Option Bnd :=
   if s == "-inf" then some .negInf else if s == "+inf" then some .posInf else (quarter? s).map .fin
